@@ -3,6 +3,7 @@ import OV.Lemmas.C03Uses
 import OV.Lemmas.C03FragA
 import OV.Lemmas.C03Mod
 import OV.Lemmas.C03BkA
+import OV.Lemmas.C03Dce
 /-!
 # C03 — `optimize()` never changes what a model computes
 
@@ -292,6 +293,216 @@ theorem pipeline_preserves (sem : Sem V) (d : Nat) (P : IrPasses) (C : PassContr
   have h6 := Refines.trans h5 (C.cse _)
   have h7 := Refines.trans h6 (C.outputFix _)
   exact Refines.trans h7 (C.nameFix _)
+
+/-! ### the `dce` slot of the pipeline: `RemoveUnusedNodesPass` as a modelled function -/
+
+/-- **`RemoveUnusedNodesPass` preserves meaning** (discharges the `dce` contract of `PassContracts` by a model instead of an
+assumption, on bodiless graphs).  `dcePass` (OV/Model/C03Dce.lean) restates onnx_ir's pass: reverse sweep, removal of nodes
+none of whose outputs is used or a graph output, trimming of trailing absent inputs, renaming/dropping of unused optional
+outputs according to the operator schema (any schema table `ctx`), the `BatchNormalization` branch, removal of unused
+initializers.  For every graph in the decidable fragment `dceFragB` (bodiless nodes, definition before use, no node reads its
+own output or the empty name, `Constant` nodes have no inputs, no `BatchNormalization` carrying `training_mode`), every schema
+table, with or without a default-domain opset import, every semantics obeying `TrailingNoneLaw` (trailing absent optional
+inputs do not matter), every depth, enclosing environment and argument list: the result computes what the input computes. -/
+theorem dce_refines (sem : Sem V) (hT : TrailingNoneLaw sem) (ctx : DceCtx) (hasOpset : Bool) (g : Graph)
+    (hwf : dceFragB g = true) (d : Nat) : Refines sem d (dceSlot ctx hasOpset g).1 g := by
+  intro outer args vs hev
+  cases d with
+  | zero => simp [evalGraph] at hev
+  | succ d => exact dcePass_sound sem hT ctx hasOpset g hwf d outer args vs hev
+
+/-- `PassResult.modified` of the modelled pass is `count ≠ 0`, and an unmodified result on the fragment is the input itself
+up to trimming: in particular when nothing was removed the node list has the same length. (The early exit of
+`optimize_ir` reads this flag.) -/
+theorem dce_unmodified_keeps_every_node (ctx : DceCtx) (sub : Graph → DceOut × Graph) (ho : Bool) (outs : List Name) :
+    ∀ (ns : List Node), (∀ n ∈ ns, n.subs = []) → (dceNodes ctx sub ho outs ns).count = 0 →
+      (dceNodes ctx sub ho outs ns).nodes.length = ns.length
+  | [], _, _ => rfl
+  | n :: rest, hb, hc => by
+    have hn := hb n List.mem_cons_self
+    have hs : (trimNode ctx ho (usedLater outs (dceNodes ctx sub ho outs rest).nodes (dceNodes ctx sub ho outs rest).ghosts) n).subs = [] := by
+      rw [(trimNode_fields ctx ho _ n).2.2.2]; exact hn
+    simp only [dceNodes] at hc ⊢
+    split at hc
+    · simp at hc
+    · rename_i hk
+      simp only [hs, dceSubs] at hc
+      rw [if_neg hk]
+      simp only [List.length_cons]
+      rw [dce_unmodified_keeps_every_node ctx sub ho outs rest (fun m hm => hb m (List.mem_cons_of_mem _ hm)) (by omega)]
+
+/-- the modelled pass maps its fragment into itself (so the contract below can be iterated) -/
+theorem dce_preserves_fragment (ctx : DceCtx) (hasOpset : Bool) (g : Graph) (hwf : dceFragB g = true) :
+    dceFragB (dceSlot ctx hasOpset g).1 = true := dceFragB_preserved ctx hasOpset g hwf
+
+/-- Pass contracts **relative to a class of graphs** `Dom` that every pass maps into itself (the absolute `PassContracts`
+is the case `Dom = fun _ => True`). -/
+structure PassContractsOn (Dom : Graph → Prop) (sem : Sem V) (d : Nat) (P : IrPasses) : Prop where
+  inline : ∀ g, Dom g → Dom (P.inline g) ∧ Refines sem d (P.inline g) g
+  rewrite : ∀ g, Dom g → Dom (P.rewrite g).1 ∧ Refines sem d (P.rewrite g).1 g
+  dce : ∀ g, Dom g → Dom (P.dce g).1 ∧ Refines sem d (P.dce g).1 g
+  liftConstants : ∀ g, Dom g → Dom (P.liftConstants g) ∧ Refines sem d (P.liftConstants g) g
+  liftSubgraphInits : ∀ g, Dom g → Dom (P.liftSubgraphInits g) ∧ Refines sem d (P.liftSubgraphInits g) g
+  dedup : ∀ g, Dom g → Dom (P.dedup g) ∧ Refines sem d (P.dedup g) g
+  cse : ∀ g, Dom g → Dom (P.cse g) ∧ Refines sem d (P.cse g) g
+  outputFix : ∀ g, Dom g → Dom (P.outputFix g) ∧ Refines sem d (P.outputFix g) g
+  nameFix : ∀ g, Dom g → Dom (P.nameFix g) ∧ Refines sem d (P.nameFix g) g
+
+theorem iterate_refines_on (Dom : Graph → Prop) (sem : Sem V) (d : Nat) (P : IrPasses) (C : PassContractsOn Dom sem d P)
+    (fold : Graph → Graph × Bool) (hfold : ∀ g, Dom g → Dom (fold g).1 ∧ Refines sem d (fold g).1 g) (early : Bool) :
+    ∀ (k : Nat) (g : Graph), Dom g → Dom (iterate P fold early k g) ∧ Refines sem d (iterate P fold early k g) g
+  | 0, g, hg => ⟨hg, Refines.refl sem d g⟩
+  | k + 1, g, hg => by
+    have hstep : Dom (iterStep P fold g).1 ∧ Refines sem d (iterStep P fold g).1 g := by
+      simp only [iterStep]
+      have h1 : Dom (if (fold g).2 then P.nameFix (fold g).1 else (fold g).1) ∧
+          Refines sem d (if (fold g).2 then P.nameFix (fold g).1 else (fold g).1) g := by
+        have hf := hfold g hg
+        split
+        · have hn := C.nameFix _ hf.1
+          exact ⟨hn.1, Refines.trans hf.2 hn.2⟩
+        · exact hf
+      have h2 := C.rewrite _ h1.1
+      have h3 := C.dce _ h2.1
+      exact ⟨h3.1, Refines.trans (Refines.trans h1.2 h2.2) h3.2⟩
+    simp only [iterate]
+    split
+    · exact hstep
+    · have ih := iterate_refines_on Dom sem d P C fold hfold early k _ hstep.1
+      exact ⟨ih.1, Refines.trans hstep.2 ih.2⟩
+
+/-- **The pipeline preserves meaning on a class of graphs closed under its passes** — the form of `pipeline_preserves` into
+which a *modelled* pass with a delimited domain can be plugged. -/
+theorem pipeline_preserves_on (Dom : Graph → Prop) (sem : Sem V) (d : Nat) (P : IrPasses) (C : PassContractsOn Dom sem d P)
+    (fold : Graph → Graph × Bool) (hfold : ∀ g, Dom g → Dom (fold g).1 ∧ Refines sem d (fold g).1 g) (o : OptOpts)
+    (g : Graph) (hg : Dom g) : Dom (optimizeIr P fold o g) ∧ Refines sem d (optimizeIr P fold o g) g := by
+  simp only [optimizeIr]
+  have h0 : Dom (if o.inline then P.inline g else g) ∧ Refines sem d (if o.inline then P.inline g else g) g := by
+    split
+    · exact C.inline g hg
+    · exact ⟨hg, Refines.refl sem d g⟩
+  have h1 := iterate_refines_on Dom sem d P C fold hfold o.stopIfNoChange o.numIterations _ h0.1
+  have h2 := C.dce _ h1.1
+  have h3 := C.liftConstants _ h2.1
+  have h4 := C.liftSubgraphInits _ h3.1
+  have h5 := C.dedup _ h4.1
+  have h6 := C.cse _ h5.1
+  have h7 := C.outputFix _ h6.1
+  have h8 := C.nameFix _ h7.1
+  exact ⟨h8.1, Refines.trans (Refines.trans (Refines.trans (Refines.trans (Refines.trans (Refines.trans (Refines.trans
+    (Refines.trans h0.2 h1.2) h2.2) h3.2) h4.2) h5.2) h6.2) h7.2) h8.2⟩
+
+/-- **`optimize_ir` with the `dce` slot discharged by the model.**  When the remove-unused-nodes pass *is* the modelled
+`dcePass` (any schema table), no contract is assumed for it: on graphs of `dceFragB`, if the folding pass and the other seven
+passes keep the graph in the fragment and refine, the whole pipeline refines — for every option tuple.  (`dce` runs
+`num_iterations + 1` times; each run is covered by `dce_refines` and `dce_preserves_fragment`.) -/
+theorem pipeline_preserves_dce_modelled (sem : Sem V) (hT : TrailingNoneLaw sem) (d : Nat) (ctx : DceCtx) (hasOpset : Bool)
+    (P : IrPasses) (hdce : P.dce = dceSlot ctx hasOpset)
+    (hpass : ∀ f ∈ [P.inline, fun g => (P.rewrite g).1, P.liftConstants, P.liftSubgraphInits, P.dedup, P.cse, P.outputFix, P.nameFix],
+      ∀ g, dceFragB g = true → dceFragB (f g) = true ∧ Refines sem d (f g) g)
+    (fold : Graph → Graph × Bool) (hfold : ∀ g, dceFragB g = true → dceFragB (fold g).1 = true ∧ Refines sem d (fold g).1 g)
+    (o : OptOpts) (g : Graph) (hg : dceFragB g = true) : Refines sem d (optimizeIr P fold o g) g := by
+  have C : PassContractsOn (fun g => dceFragB g = true) sem d P :=
+    { inline := hpass _ (by simp)
+      rewrite := hpass (fun g => (P.rewrite g).1) (by simp)
+      dce := fun g hg => by
+        rw [hdce]
+        exact ⟨dce_preserves_fragment ctx hasOpset g hg, dce_refines sem hT ctx hasOpset g hg d⟩
+      liftConstants := hpass _ (by simp)
+      liftSubgraphInits := hpass _ (by simp)
+      dedup := hpass _ (by simp)
+      cse := hpass _ (by simp)
+      outputFix := hpass _ (by simp)
+      nameFix := hpass _ (by simp) }
+  exact (pipeline_preserves_on _ sem d P C fold hfold o g hg).2
+
+/-! non-vacuity of `dce_refines`: a graph of the fragment on which a dead chain, a dead initializer, a trailing absent input
+and an unused optional output are all removed; `firstSem` obeys `TrailingNoneLaw`. -/
+def firstSem : Sem Nat where
+  op := fun o _ _ args => some [args.filterMap id |>.foldl (· + ·) o.length, 7, 9]
+  ctl := fun _ _ _ _ _ => none
+  truth := fun v => some (v != 0)
+  tensor := fun t => t.length
+  intsTensor := fun l => l.length
+  intTensor := fun i => i.toNat
+
+theorem filterMap_dropTrailing_none : ∀ (l : List (Option Nat)), (dropTrailing Option.isNone l).filterMap id = l.filterMap id
+  | [] => rfl
+  | a :: l => by
+    rw [dropTrailing_cons]
+    have ih := filterMap_dropTrailing_none l
+    split
+    · rename_i hc
+      simp only [Bool.and_eq_true, List.isEmpty_iff] at hc
+      rw [hc.1] at ih
+      cases a with
+      | none => simpa using ih
+      | some v => simp at hc
+    · cases a <;> simp [ih]
+
+theorem firstSem_trailing : TrailingNoneLaw firstSem := by
+  intro op dom attrs args
+  simp only [firstSem, filterMap_dropTrailing_none]
+
+def gDce : Graph :=
+  .mk ["X"] [("w", "tw"), ("unused", "tu")]
+    [ .mk "Clip" "" [some "X", none, none] ["a"] [] [],
+      .mk "Abs" "" [some "a"] ["d0"] [] [],
+      .mk "Add" "" [some "d0", some "w"] ["dead"] [] [],
+      .mk "LayerNormalization" "" [some "a", some "X", none] ["l", "mean", "isd"] [] [] ]
+    ["l"]
+
+def ctxDce : DceCtx := { schema := [("LayerNormalization", some [0, 1, 1]), ("Clip", some [0]), ("Abs", some [0]), ("Add", some [0])] }
+
+example : dceFragB gDce = true := by decide
+example : ((dceSlot ctxDce true gDce).1.nodes.map fun n => (n.op, n.inputs, n.outputs)) =
+      [("Clip", [some "X"], ["a"]), ("LayerNormalization", [some "a", some "X"], ["l"])] ∧
+    (dceSlot ctxDce true gDce).1.inits = [] ∧ (dceSlot ctxDce true gDce).2 = true := by
+  decide
+example : evalGraph firstSem 1 Env.empty gDce [some 5] = some [32] := by decide
+example : evalGraph firstSem 1 Env.empty (dceSlot ctxDce true gDce).1 [some 5] = some [32] := by decide
+
+/-- non-vacuity of `pipeline_preserves_dce_modelled`: identity passes around the modelled `dce`, three iterations -/
+def idPassesDce : IrPasses :=
+  { inline := id, rewrite := fun g => (g, false), dce := dceSlot ctxDce true, liftConstants := id, liftSubgraphInits := id,
+    dedup := id, cse := id, outputFix := id, nameFix := id }
+
+example : Refines firstSem 1 (optimizeIr idPassesDce (fun g => (g, false)) { numIterations := 3, stopIfNoChange := false, inline := true } gDce) gDce :=
+  pipeline_preserves_dce_modelled firstSem firstSem_trailing 1 ctxDce true idPassesDce rfl
+    (by
+      intro f hf g hg
+      simp only [idPassesDce, List.mem_cons, List.not_mem_nil, or_false] at hf
+      rcases hf with e | e | e | e | e | e | e | e <;> subst e <;> exact ⟨hg, Refines.refl _ _ _⟩)
+    (fun g => (g, false)) (fun g hg => ⟨hg, Refines.refl _ _ _⟩) _ gDce (by decide)
+
+/-- **C03-D4 (refuted full statement).**  Without the `BatchNormalization` clause of `dceFragB`, `dce_refines` is false: the
+pass pops `training_mode` when the running outputs are unused, and a semantics in which `training_mode` matters (the ONNX
+specification: batch statistics instead of the running ones) distinguishes the two graphs.  Replayed on the real code by
+`harness/c03_dce.py` (family `dce_bn_training_unused`). -/
+def bnSem : Sem Nat where
+  op := fun o _ attrs _ => some [if o == "BatchNormalization" && attrs.any (·.1 == "training_mode") then 1 else 0, 0, 0]
+  ctl := fun _ _ _ _ _ => none
+  truth := fun v => some (v != 0)
+  tensor := fun _ => 0
+  intsTensor := fun _ => 0
+  intTensor := fun _ => 0
+
+def gBn : Graph :=
+  .mk ["X"] [] [ .mk "BatchNormalization" "" [some "X"] ["Y", "rm", "rv"] [("training_mode", .int 1)] [] ] ["Y"]
+
+def ctxBn : DceCtx := { schema := [("BatchNormalization", some [0, 1, 1])] }
+
+/-- the witness violates the `training_mode` clause of `dceFragB` and nothing else: the same graph without the attribute is
+in the fragment -/
+example : dceFragB gBn = false ∧
+    dceFragB (.mk ["X"] [] [ .mk "BatchNormalization" "" [some "X"] ["Y", "rm", "rv"] [] [] ] ["Y"]) = true := by decide
+
+theorem dce_batchnorm_training_mode_refuted :
+    ¬ ∀ (sem : Sem Nat) (ctx : DceCtx) (g : Graph), TrailingNoneLaw sem → Refines sem 1 (dceSlot ctx true g).1 g := by
+  intro h
+  have h1 := h bnSem ctxBn gBn (fun _ _ _ _ => rfl) Env.empty [some 5] [1] (by decide)
+  revert h1
+  decide
 
 /-! ### end to end on a delimited fragment -/
 
